@@ -130,5 +130,5 @@ class CHECK(FloCheck):
         flags = [l for l in reply.split("|") if l.startswith("G ")]
         if not flags:
             return False
-        want = {"D3": "overlap=1", "D27": "reenter=1"}.get(finding.get("id"))
+        want = {"D3": "overlap=1", "D3b": "shared=1", "D3c": "reenter=1"}.get(finding.get("id"))
         return want is not None and want in flags[0]
